@@ -560,7 +560,18 @@ impl<'a> Gen<'a> {
         }
     }
 
+    /// an array expression whose static type is exactly an array type `[T]`, T <= elem
     fn arr_expr(&mut self, elem: &Ty, depth: u32) -> (E, Ty) {
+        let (e, t) = self.arr_expr_any(elem, depth);
+        if matches!(t, Ty::Arr(_)) {
+            return (e, t);
+        }
+        // e.g. a variable typed `[int]|[string]`: fall back to a literal
+        let (x, tx) = self.expr(elem, 0);
+        (E::Arr(vec![x]), Ty::arr(tx))
+    }
+
+    fn arr_expr_any(&mut self, elem: &Ty, depth: u32) -> (E, Ty) {
         let d = depth.saturating_sub(1);
         let lit = |g: &mut Self, d: u32| -> (E, Ty) {
             let n = g.rng.below(4);
